@@ -22,7 +22,7 @@ from typing_extensions import NotRequired, TypedDict
 
 __all__ = [
     "TDk",
-    "Rev", "Fwd", "IntKeyed", "LS", "KT", "VT", "FSub", "ISub", "Pops", "T_co",
+    "Rev", "Fwd", "IntKeyed", "LS", "KT", "VT", "FSub", "ISub", "Pops", "T_co", "ANYTHING", "SENTINEL", "NAN",
     "kwmap_int", "kwmap_str", "seq_int", "seq_str",
     "A", "B", "C", "D", "G", "E", "IE", "N", "TD", "TDp", "TDn", "HasX", "SupportsClose",
     "Suppress", "NoSuppress", "cond", "call", "use", "ident", "first", "pair", "apply_fn",
@@ -312,6 +312,27 @@ class Pops(Protocol[T_co]):
     """Structural and generic: list[int] is a Pops[int] (list.pop returns the element type)."""
 
     def pop(self) -> T_co: ...
+
+
+class _Anything:
+    """Compares equal to every object (like unittest.mock.ANY)."""
+
+    def __eq__(self, other):
+        return True
+
+    def __ne__(self, other):
+        return False
+
+    def __hash__(self):
+        return 0
+
+    def __repr__(self):
+        return "ANYTHING"
+
+
+ANYTHING = _Anything()
+SENTINEL = object()
+NAN = float("nan")
 
 
 class FSub(float):
